@@ -29,6 +29,13 @@ def run(ctx):
         outs_h.append(o)
         jobs.append(dict(module="MC_C01", name="MC_C01_" + name, view="View", workers=8, timeout=3300,
                          constants=dict(consts, Seed=ctx.seed, OutFile=core.tla_str(o)), invariants=("TypeOK",), properties=("SumPure",)))
+    if ctx.tier == "quick":
+        # every block count 1..17 of the output (each remainder of the 4- and 8-lane batches on both SIMD tiers) on a few alignments of z
+        o = "%s.blocks" % out_k
+        outs_k.append(o)
+        jobs.append(dict(module="MC_C01kdf", name="MC_C01kdf_blocks", view="View", workers=4, timeout=3300,
+                         constants=dict(Seed=ctx.seed, ZLens=S([0, 1, 32, 55, 59, 60, 63, 64]), KLens=S([32 * k for k in range(1, 18)] + [7 * 32 - 31, 11 * 32 - 31]),
+                                        OutFile=core.tla_str(o)), invariants=("PrefixOK",)))
     for i in range(zshards):
         o = "%s.%d" % (out_k, i)
         outs_k.append(o)
